@@ -126,6 +126,9 @@ def run(model, rep):
     pins(model, rep)
     arg(model, rep)
     scope(model, rep)
+    from . import rename_e2e
+    rep.rule('C04.E2E', 'renaming end to end on probe modules: names no function scope binds, attributes, keyword names, imported names, preserved names keep their spelling; module-level additions carry the underscore')
+    rename_e2e.run(model, rep, 'C04.E2E')
     glob(model, rep)
 
 
@@ -184,108 +187,190 @@ def own(model, rep, control):
     rep.ok('C04.OWN1', 'src/python_minifier', 'scan of %d stores to identifier-named attributes' % len(stores), 'none targets an external field', cells=len(stores), key='C04.OWN1|scan')
 
 
+PIN_PROBE = '''
+import pkg.sub
+import plain
+import pkg2.sub2 as aliased
+from mod import member, other as renamed_member
+class K(Base):
+    attr = 1
+    _private = 2
+    def method(self, kwparam, *rest):
+        inner_local = kwparam
+        return inner_local, undefined_global, len(rest)
+    class Nested:
+        nested_attr = 3
+def func(param, second=0):
+    local = 1
+    __dunder__ = 2
+    print = 3
+    lam = lambda lam_param: lam_param
+    def innerdef(): pass
+    import os.path
+    return local, __dunder__, print, lam, super, object, innerdef, another_undefined, os
+glob = 1
+__version__ = 2
+_single = 3
+'''
+
+# (scope, name) -> (pinned by the binder / resolver?, must the original spelling stay reserved in the scope?, why)
+PIN_EXPECT = {
+    ('module', 'pkg'): (True, None, 'root of a dotted import: `pkg.sub` is reached through the name pkg'),
+    ('module', 'plain'): (False, None, ''), ('module', 'aliased'): (False, None, ''), ('module', 'member'): (False, None, ''), ('module', 'renamed_member'): (False, None, ''),
+    ('module', 'K'): (False, None, ''), ('module', 'func'): (False, None, ''), ('module', 'glob'): (False, None, ''), ('module', '_single'): (False, None, ''),
+    ('module', '__version__'): (True, None, 'system (double underscore) name'),
+    ('module', 'undefined_global'): (True, None, 'used but never bound: it belongs to whoever defines it'), ('module', 'another_undefined'): (True, None, 'used but never bound'),
+    ('module', 'Base'): (True, None, 'used but never bound'),
+    ('module', 'len'): (False, None, ''), ('module', 'super'): (True, None, 'zero-argument super() needs the spelling'), ('module', 'object'): (True, None, 'new-style class base'),
+    ('K', 'attr'): (True, None, 'class attribute, reachable as K.attr'), ('K', '_private'): (True, None, 'class attribute'), ('K', 'method'): (True, None, 'class attribute'),
+    ('K', 'Nested'): (True, None, 'class attribute'), ('Nested', 'nested_attr'): (True, None, 'class attribute'),
+    ('method', 'self'): (False, None, ''), ('method', 'kwparam'): (False, 'kwparam', 'callers may pass it by keyword: the signature keeps the spelling'), ('method', 'rest'): (False, None, ''),
+    ('method', 'inner_local'): (False, None, ''),
+    ('func', 'param'): (False, 'param', 'callers may pass it by keyword'), ('func', 'second'): (False, 'second', 'callers may pass it by keyword'), ('func', 'local'): (False, None, ''),
+    ('func', '__dunder__'): (True, None, 'system name'), ('func', 'print'): (True, None, 'shadows a builtin'), ('func', 'lam'): (False, None, ''), ('func', 'innerdef'): (False, None, ''),
+    ('func', 'os'): (True, None, 'root of a dotted import'),
+    ('lambda', 'lam_param'): (True, None, 'lambda parameters can be passed by keyword and a lambda has no body to re-bind them in'),
+}
+
+
 def pins(model, rep):
-    BN = 'python_minifier.rename.bind_names'
-    RN = 'python_minifier.rename.resolve_names'
-    binder = BN + '.NameBinder'
+    """mapper + binder + resolver run (abstractly) on a probe module; then every binding is inspected: which names are pinned by construction,
+    which keep their spelling reserved. No private function of the renamer is named."""
+    from .c03 import MAPPER, scope_label
+    from ..absnodes import set_parents, std_hooks, walk
+    from ..absprint import to_obj
+    R_ = 'python_minifier.rename.'
+    mod = to_obj(ast.parse(PIN_PROBE))
+    set_parents(mod)
+    hooks = dict(std_hooks(), **{'dir': lambda I, e, args, kw, env: dir(builtins)})
+    I = Interp(model, MAPPER, hooks, max_depth=600)
+    I.MAX_PATHS = 8
 
-    def is_pinned(b):
-        return isinstance(b, Obj) and b.attrs.get('_allow_rename') is False
-
-    base_hooks = lambda: dict(std_hooks(), **{'dir': lambda I, e, args, kw, env: dir(builtins),
-                                               'get_global_namespace': lambda I, e, args, kw, env: args[0].attrs.get('_module', TOP) if isinstance(args[0], Obj) else TOP,
-                                               'get_nonlocal_namespace': lambda I, e, args, kw, env: args[0].attrs.get('_nonlocal', TOP) if isinstance(args[0], Obj) else TOP})
-
-    def ns(kind, **kw):
-        o = Obj(kind, bindings=[], global_names=set(), nonlocal_names=set(), **kw)
-        return o
-    # a. NameBinder.get_binding per namespace kind / name
-    gb = model.method(binder, 'get_binding')
-    for kind, name, want in (('ClassDef', 'attr', True), ('FunctionDef', 'local', False), ('Module', 'glob', False), ('FunctionDef', 'len', True), ('Module', 'print', True),
-                             ('FunctionDef', '__dunder__', True), ('Lambda', 'x', False), ('ListComp', 'x', False), ('ClassDef', '_private', True)):
-        I = Interp(model, BN, base_hooks())
-        res = I.explore(lambda: I.call_method(binder, 'get_binding', Obj('NameBinder'), [name, ns(kind)]))
-        for (o, ev, unk) in res:
-            if o[0] != 'return' or not isinstance(o[1], Obj):
-                raise AnalysisError('UNDECIDED: NameBinder.get_binding(%r, <%s>) -> %s %s' % (name, kind, o, unk[:3]))
-            rep.check(is_pinned(o[1]) == want, 'C04.PIN', gb.loc(), 'binder: name %r in a %s namespace -> %s' % (name, kind, 'pinned' if is_pinned(o[1]) else 'renamable'), 'as required',
-                      'a binding for %r in a %s namespace is %s' % (name, kind, 'renamable: %s' % ('class attributes are reachable by name from outside' if kind == 'ClassDef' else 'it shadows a builtin / is a system name') if want else 'pinned'),
-                      key='C04.PIN|binder|%s|%s' % (kind, name))
-    # b. existing binding re-fetched in a class namespace stays pinned (pin applied on all paths, not only on creation)
-    I = Interp(model, BN, base_hooks())
-    cns = ns('ClassDef')
-    existing = Obj('NameBinding', _name='attr', _allow_rename=True, _reserved=None, _references=[])
-    existing.attrs['name'] = 'attr'
-    cns.attrs['bindings'].append(existing)
-    res = I.explore(lambda: I.call_method(binder, 'get_binding', Obj('NameBinder'), ['attr', cns]))
-    rep.check(all(o[0] == 'return' and o[1] is existing and is_pinned(existing) for (o, _e, _u) in res), 'C04.PIN', gb.loc(), 'binder: existing binding fetched again in a class namespace', 'pinned on this path too',
-              'the class-namespace pin is only applied when the binding is created', key='C04.PIN|binder|existing')
-    # c. resolver
-    rgb = model.func(RN + '.get_binding')
-    for label, name, want_cls, want_pin in (('unresolved non-builtin global', 'undefined_name', 'NameBinding', True), ('builtin', 'len', 'BuiltinBinding', False), ('super', 'super', 'BuiltinBinding', True),
-                                           ('object', 'object', 'BuiltinBinding', True)):
-        I = Interp(model, RN, base_hooks())
-        res = I.explore(lambda: I.call_function(rgb.qual, [name, ns('Module', tainted=False)]))
-        for (o, ev, unk) in res:
-            if o[0] != 'return' or not isinstance(o[1], Obj):
-                raise AnalysisError('UNDECIDED: resolve_names.get_binding(%r) -> %s %s' % (name, o, unk[:3]))
-            b = o[1]
-            rep.check(b.cls == want_cls and is_pinned(b) == want_pin, 'C04.PIN', rgb.loc(), 'resolver: %s %r -> %s, %s' % (label, name, b.cls, 'pinned' if is_pinned(b) else 'renamable'), 'as required',
-                      '%s %r resolves to a %s that is %s' % (label, name, b.cls, 'renamable' if want_pin else 'pinned'), key='C04.PIN|resolver|' + label)
-    dcr = model.func(RN + '.get_binding_disallow_class_namespace_rename')
-    for kind, want in (('ClassDef', True), ('FunctionDef', False)):
-        I = Interp(model, RN, base_hooks())
-        n_ = ns(kind)
-        b0 = Obj('NameBinding', _name='v', _allow_rename=True, _reserved=None, _references=[])
-        b0.attrs['name'] = 'v'
-        n_.attrs['bindings'].append(b0)
-        res = I.explore(lambda: I.call_function(dcr.qual, ['v', n_]))
-        rep.check(all(o[0] == 'return' and is_pinned(o[1]) == want for (o, _e, _u) in res), 'C04.PIN', dcr.loc(), 'resolver: nonlocal-style rebinding in a %s namespace -> %s' % (kind, 'pinned' if is_pinned(b0) else 'renamable'),
-                  'as required', 'a name rebound in a %s body is %s' % (kind, 'renamable' if want else 'pinned'), key='C04.PIN|resolver|rebind-' + kind)
-    # d. dunder rule in NameBinding.__init__
-    for name, want in (('__all__', True), ('__x__', True), ('_x', False), ('x__', False), ('__x', False), ('x', False)):
-        I = Interp(model, B, {})
-        res = I.explore(lambda: I.construct(ClassRef('NameBinding'), [name], {}))
-        for (o, ev, unk) in res:
-            if o[0] != 'return':
-                raise AnalysisError('UNDECIDED: NameBinding(%r) -> %s' % (name, o))
-            rep.check(is_pinned(o[1]) == want, 'C04.PIN', model.func(B + '.NameBinding.__init__').loc(), 'NameBinding(%r) -> %s' % (name, 'pinned' if is_pinned(o[1]) else 'renamable'), 'system names pinned',
-                      'NameBinding(%r) is %s' % (name, 'renamable' if want else 'pinned'), key='C04.PIN|dunder|' + name)
-    # e. imports
-    va = model.method(binder, 'visit_alias')
-    for label, nm, asname, want_names in (('import a.b', 'a.b', None, {'a': True}), ('import a', 'a', None, {'a': False}), ('import a.b as c', 'a.b', 'c', {'c': False})):
-        I = Interp(model, BN, base_hooks())
-        fns = ns('FunctionDef')
-        mod = ns('Module', tainted=False)
-        node = Obj('alias', name=nm, asname=asname, namespace=fns, _module=mod)
-        res = I.explore(lambda: I.call_method(binder, 'visit_alias', Obj('NameBinder'), [node]))
-        for (o, ev, unk) in res:
-            if o[0] != 'return':
-                raise AnalysisError('UNDECIDED: visit_alias(%s) -> %s %s' % (label, o, unk[:3]))
-        got = {b.attrs.get('_name'): is_pinned(b) for b in fns.attrs['bindings']}
-        rep.check(got == want_names, 'C04.PIN', va.loc(), '%s -> bindings %s' % (label, got), 'root of a dotted import pinned', '%s creates bindings %s (name: pinned?), expected %s' % (label, got, want_names), key='C04.PIN|import|' + label)
-    # f. lambda parameters
-    varg = model.method(binder, 'visit_arg')
-    for kind, inplace, want in (('Lambda', False, True), ('FunctionDef', False, False), ('Lambda', True, False)):
-        hooks = base_hooks()
-        hooks['arg_rename_in_place'] = lambda I, e, args, kw, env, _v=inplace: _v
-        hooks['self.generic_visit'] = lambda I, e, args, kw, env: None
-        I = Interp(model, BN, hooks)
-        fns = ns(kind)
-        node = Obj('arg', arg='p', annotation=None, namespace=fns)
-        res = I.explore(lambda: I.call_method(binder, 'visit_arg', Obj('NameBinder'), [node]))
-        if any(o[0] != 'return' for (o, _e, _u) in res):
-            raise AnalysisError('UNDECIDED: visit_arg(%s) -> %s' % (kind, [r[0] for r in res]))
-        b = fns.attrs['bindings'][0] if fns.attrs['bindings'] else None
-        reserved = b.attrs.get('_reserved') if b is not None else None
-        ok = b is not None and is_pinned(b) == want and (inplace or reserved == 'p')
-        rep.check(ok, 'C04.PIN', varg.loc(), 'parameter of a %s, in-place=%s -> %s, reserved=%r' % (kind, inplace, 'pinned' if b is not None and is_pinned(b) else 'renamable', reserved), 'keyword-callable names stay reserved; lambda parameters pinned',
-                  'a parameter of a %s (renamable in the signature: %s) is %s with reserved name %r' % (kind, inplace, 'pinned' if b is not None and is_pinned(b) else 'renamable', reserved), key='C04.PIN|arg|%s|%s' % (kind, inplace))
+    def thunk():
+        I.call_function(MAPPER + '.add_namespace', [mod])
+        I.call_function(R_ + 'bind_names.bind_names', [mod])
+        I.call_function(R_ + 'resolve_names.resolve_names', [mod])
+    res = I.explore(thunk)
+    if len(res) != 1 or res[0][0][0] != 'return':
+        raise AnalysisError('UNDECIDED: bind / resolve on the pin probe -> %s %s' % ([r[0] for r in res][:2], res[0][2][:3]))
+    seen = {}
+    for o in walk(mod):
+        bs = o.attrs.get('bindings')
+        if not isinstance(bs, list):
+            continue
+        scope = 'module' if o.cls == 'Module' else (scope_label(o) or o.cls)
+        for b in bs:
+            if isinstance(b, Obj):
+                seen[(scope, b.attrs.get('_name', b.attrs.get('name')))] = b
+    where = 'src/python_minifier/rename/bind_names.py'
+    for (scope, name), (want_pin, want_reserved, why) in sorted(PIN_EXPECT.items()):
+        b = seen.get((scope, name))
+        key = 'C04.PIN|%s|%s' % (scope, name)
+        if b is None:
+            rep.violation('C04.PIN', where, '%s in %s' % (name, scope), 'no binding is created for %s in the %s scope (found %s)' % (name, scope, sorted(n for (s_, n) in seen if s_ == scope)), key=key)
+            continue
+        pinned = b.attrs.get('_allow_rename') is False
+        reserved = b.attrs.get('_reserved')
+        ok = pinned == want_pin and (want_reserved is None or pinned or reserved == want_reserved)
+        rep.check(ok, 'C04.PIN', where, '%s in the %s scope -> %s%s' % (name, scope, 'pinned' if pinned else 'renamable', ', reserved %r' % reserved if reserved else ''),
+                  'as required' + (' (%s)' % why if why else ''),
+                  '%s in the %s scope is %s%s: %s' % (name, scope, 'pinned' if pinned else 'renamable', '' if want_reserved is None or reserved == want_reserved else ' and its spelling %r is not reserved' % want_reserved,
+                                                     why or 'an ordinary name must stay renamable, or nothing is ever shortened'), key=key)
     rep.floor('C04.PIN', 28)
 
 
+ARG_KINDS = {
+    'function': 'def f({SIG}):\n    return [{USE}]\n',
+    'nested function': 'def outer():\n    def f({SIG}):\n        return [{USE}]\n    return f\n',
+    'method': 'class K:\n    def f({SIG}):\n        return [{USE}]\n',
+    'async method': 'class K:\n    async def f({SIG}):\n        return [{USE}]\n',
+    'classmethod': 'class K:\n    @classmethod\n    def f({SIG}):\n        return [{USE}]\n',
+    'staticmethod': 'class K:\n    @staticmethod\n    def f({SIG}):\n        return [{USE}]\n',
+    'decorated method': 'class K:\n    @deco\n    def f({SIG}):\n        return [{USE}]\n',
+    'classmethod under another decorator': 'class K:\n    @classmethod\n    @deco\n    def f({SIG}):\n        return [{USE}]\n',
+    'method of a nested class': 'def outer():\n    class K:\n        def f({SIG}):\n            return [{USE}]\n    return K\n',
+}
+ARG_SIGS = [('p0, p1, /, a0, a1, *va, k0, **kw', ['p0', 'p1', 'a0', 'a1', 'va', 'k0', 'kw'], {'p0': 'posonly', 'p1': 'posonly', 'a0': 'arg', 'a1': 'arg', 'va': 'vararg', 'k0': 'kwonly', 'kw': 'kwarg'}),
+            ('a0, a1=None, *, k0=1', ['a0', 'a1', 'k0'], {'a0': 'arg', 'a1': 'arg', 'k0': 'kwonly'}),
+            ('a0', ['a0'], {'a0': 'arg'}), ('*va, **kw', ['va', 'kw'], {'va': 'vararg', 'kw': 'kwarg'}), ('p0, /', ['p0'], {'p0': 'posonly'})]
+
+
+def arg_probe(model, rep):
+    """For every function kind x signature shape: mapper + binder + resolver run on a probe, then `rename` of every parameter binding is evaluated.
+    A parameter callers can pass by keyword must keep its spelling in the signature (the new name is bound in the body instead); positional-only
+    parameters, *args / **kwargs and the implicit first parameter of a method / classmethod are renamed in the signature."""
+    from .c03 import MAPPER
+    from ..absnodes import set_parents, std_hooks, walk
+    from ..absprint import to_obj, print_obj
+    R_ = 'python_minifier.rename.'
+    bad = []
+    cells = 0
+    for kname, tpl in sorted(ARG_KINDS.items()):
+        for (sig, names, kinds) in ARG_SIGS:
+            source = tpl.replace('{SIG}', sig).replace('{USE}', ', '.join(names))
+            mod = to_obj(ast.parse(source))
+            set_parents(mod)
+            hooks = dict(std_hooks(), **{'dir': lambda I, e, args, kw, env: dir(builtins)})
+            I = Interp(model, MAPPER, hooks, max_depth=600)
+            I.MAX_PATHS = 8
+            new_names = {n: 'N%d' % i for i, n in enumerate(names)}
+
+            def thunk():
+                I.call_function(MAPPER + '.add_namespace', [mod])
+                I.call_function(R_ + 'bind_names.bind_names', [mod])
+                I.call_function(R_ + 'resolve_names.resolve_names', [mod])
+                fn = [o for o in walk(mod) if o.cls in ('FunctionDef', 'AsyncFunctionDef') and o.attrs.get('name') == 'f'][0]
+                for b in list(fn.attrs.get('bindings') or []):
+                    nm = b.attrs.get('_name')
+                    if isinstance(b, Obj) and nm in new_names:
+                        I.call_method(b.qual or R_ + 'binding.NameBinding', 'rename', b, [new_names[nm]])
+                return fn
+            res = I.explore(thunk)
+            if len(res) != 1 or res[0][0][0] != 'return':
+                raise AnalysisError('UNDECIDED: renaming the parameters of a %s (%s) -> %s %s' % (kname, sig, [r[0] for r in res][:2], res[0][2][:3]))
+            fn = res[0][0][1]
+            a = fn.attrs['args']
+            sig_names = [x.attrs['arg'] for x in (a.attrs.get('posonlyargs') or []) + a.attrs['args']] + ([a.attrs['vararg'].attrs['arg']] if a.attrs.get('vararg') else []) + \
+                [x.attrs['arg'] for x in a.attrs.get('kwonlyargs') or []] + ([a.attrs['kwarg'].attrs['arg']] if a.attrs.get('kwarg') else [])
+            is_method = kname in ('method', 'async method', 'classmethod', 'method of a nested class')
+            first = names[0] if kinds[names[0]] in ('posonly', 'arg') else None
+            for n_ in names:
+                cells += 1
+                in_place = new_names[n_] in sig_names
+                kept = n_ in sig_names
+                want = kinds[n_] in ('posonly', 'vararg', 'kwarg') or (is_method and n_ == first)
+                if in_place and not want:
+                    bad.append((kname, kinds[n_], 'first' if n_ == first else 'later', 'a %s parameter (%s) of a %s is renamed in the signature (%s -> %s): callers that pass it by keyword break' % (kinds[n_], 'first' if n_ == first else 'not first', kname, sig, ', '.join(sig_names))))
+                elif want and not in_place and not kept:
+                    bad.append((kname, kinds[n_], 'lost', 'parameter %s of a %s disappears from the signature' % (n_, kname)))
+                elif not in_place and not kept:
+                    bad.append((kname, kinds[n_], 'lost', 'parameter %s of a %s is neither kept nor renamed' % (n_, kname)))
+            kind_, text = print_obj(model, mod)
+            if kind_ == 'ok':
+                try:
+                    ast.parse(text)
+                except SyntaxError as e_:
+                    bad.append((kname, 'all', 'syntax', 'after renaming the parameters of a %s the program does not parse: %s %r' % (kname, e_, text[:80])))
+    fi = model.func('python_minifier.rename.binding.NameBinding.rename')
+    seen = set()
+    for b in bad:
+        if b[:3] in seen:
+            continue
+        seen.add(b[:3])
+        rep.violation('C04.ARG', fi.loc(), '%s parameter (%s) of a %s' % (b[1], b[2], b[0]), b[3], key='C04.ARG|probe|%s|%s|%s' % b[:3])
+    if not bad:
+        rep.ok('C04.ARG', fi.loc(), 'parameters renamed on %d (function kind x signature x parameter) probes' % cells, 'renamed in the signature only where no caller can name them; otherwise re-bound in the body', cells=cells, key='C04.ARG|probe')
+
+
 def arg(model, rep):
-    fi = model.func(UTIL + '.arg_rename_in_place')
+    arg_probe(model, rep)
+    # what Binding.rename does to every kind of reference node is decided by evaluation (rename_enum)
+    rename_enum(model, rep)
+    rep.floor('C04.ARG', 3)
+    fi = model.funcs.get(UTIL + '.arg_rename_in_place')
+    if fi is None:
+        rep.note('no function %s.arg_rename_in_place: the in-place decision is decided through the probes above only' % UTIL)
+        return
     cells = 0
     bad = []
 
@@ -340,9 +425,6 @@ def arg(model, rep):
     if not bad:
         rep.ok('C04.ARG', fi.loc(), 'arg_rename_in_place over %d (function kind x parameter) cells' % cells, 'True only for self/cls-like first parameters, *args/**kwargs, positional-only', cells=cells, key='C04.ARG|enum')
     # comprehension arm (python 2 list comprehension variables): isinstance(func, ast.comprehension) -> True is harmless (no callers)
-    # what Binding.rename does to every kind of reference node is decided by evaluation (rename_enum)
-    rename_enum(model, rep)
-    rep.floor('C04.ARG', 3)
 
 
 def rename_enum(model, rep):
